@@ -104,7 +104,22 @@ func verifC33recover(c *cheque.SignedCheque, _ int64) (common.Address, error) {
 
 // VerifC33_RealStore: as VerifC33_Restart, with the real cheque store over a
 // persistent typed state store.
+//
+// Peer 0 is NEW to the contract (first seen in this run: on neither of the
+// chain's address lists, nothing cashed in either direction), so after the
+// restart it is restored only through the records the real cheque store keeps
+// and lists itself (GetAllRetrieveTransferAddresses over the state store's key
+// prefixes) - e.g. a peer that was only served, or only consumed from. Peer 1
+// is listed by the contract with arbitrary on-chain totals. Thorough tier:
+// peer 0 listed or not (symbolic), and the histories include the handshake in
+// which a peer shows a cheque of ours (see verifC33step).
 func VerifC33_RealStore() {
 	st := cheque.NewChequeStore(&verifC33KV{}, verifC33Self, verifC33recover, 1)
-	verifC33run(st, 2, zzverif.Param("ops", 4, 5), zzverif.Param("chaindown", 0, 1) == 1, "C33-restart-realstore")
+	ops := verifC33basicOps[:4]
+	unlisted := [verifC33N]bool{true, false}
+	if zzverif.Param("allops", 0, 1) == 1 {
+		ops = append(append([]int{}, verifC33basicOps...), verifC33opHandshake)
+		unlisted[0] = zzverif.Bool("peer0NewToTheContract")
+	}
+	verifC33run(st, 2, ops, zzverif.Param("chaindown", 0, 1) == 1, unlisted, "C33-restart-realstore")
 }
